@@ -211,6 +211,8 @@ func C20(c *core.Ctx) {
 	emit(c, a.AccumulatorStartsEmpty("main.allKeys"))
 	// "(or the defaults)": a mapping given only some of the three per-id flags takes the defaults for the others
 	emit(c, a.MappingDefaults("main.init$1", "generator.SchemaMapping", []string{"PackageName", "OutputName"}))
+	// ... and a value that IS given for an id is used verbatim, the empty string included (`--schema-output=ID=` means "no output")
+	emit(c, a.MappingUsesPresence("main.init$1"))
 	facts := a.UniqueFacts()
 	ok := false
 	for _, f := range facts {
